@@ -3,7 +3,6 @@ package c11
 
 import (
 	"fmt"
-	"sort"
 	"strings"
 	"testing"
 	"time"
@@ -46,11 +45,35 @@ func isValid(d []byte) bool {
 	return !spec.Decode(spec.Call{Op: "GetDevices"}, spec.Config{}, d).MayFail
 }
 
+// optionalMark prefixes the expected entry of a reply whose only flaw is an out-of-domain date (valid BCD, impossible
+// calendar date): the protocol model allows the entry to be dropped or to be returned with 'no date' - never with an
+// invented date.
+const optionalMark = "(optional) "
+
+func dateOnlyFlaw(d []byte) bool {
+	if len(d) != 64 || d[0] != 0x17 || d[1] != 0x94 {
+		return false
+	}
+	off := spec.Responses["GetDevices"].Field("date").Off
+	for i := 0; i < 4; i++ {
+		if d[off+i]>>4 > 9 || d[off+i]&0x0f > 9 {
+			return false
+		}
+	}
+	fixed := append([]byte(nil), d...)
+	spec.PutDate(fixed[off:], spec.Civil{Y: 2024, M: 1, D: 1})
+	return isValid(fixed)
+}
+
 func expected(c discCase, portOverride uint16) []string {
 	var out []string
 	for _, d := range c.Datagrams {
+		optional := false
 		if !isValid(d) {
-			continue
+			if !dateOnlyFlaw(d) {
+				continue
+			}
+			optional = true
 		}
 		cfg := spec.Config{}
 		if c.Cfg.HasBroadcast {
@@ -62,7 +85,11 @@ func expected(c discCase, portOverride uint16) []string {
 		if dev := c.Cfg.Lookup(spec.LE32(d[4:])); dev != nil {
 			cfg.Name = dev.Name
 		}
-		out = append(out, spec.Decode(spec.Call{Op: "GetDevices"}, cfg, d).Rec.String())
+		e := spec.Decode(spec.Call{Op: "GetDevices"}, cfg, d).Rec.String()
+		if optional {
+			e = optionalMark + e
+		}
+		out = append(out, e)
 	}
 	return out
 }
@@ -79,17 +106,54 @@ func compare(site string, c discCase, want, got []string, err error, ordered boo
 	if err != nil {
 		return rp.Failf(site+"/call-failed", "GetDevices failed: %v (incoming: %s)", err, describe(c))
 	}
-	if !ordered {
-		want, got = append([]string(nil), want...), append([]string(nil), got...)
-		sort.Strings(want)
-		sort.Strings(got)
+	mismatch := func() *rp.Fail {
+		required := 0
+		for _, w := range want {
+			if !strings.HasPrefix(w, optionalMark) {
+				required++
+			}
+		}
+		if len(got) < required || len(got) > len(want) {
+			return rp.Failf(site+"/wrong-count", "GetDevices returned %d controllers, %d well-formed replies arrived (%d more with an impossible date, which may be dropped or returned without date) (incoming: %s)\n got:  %v\n want: %v", len(got), required, len(want)-required, describe(c), got, want)
+		}
+		return rp.Failf(site+"/wrong-entry", "the entries differ (incoming: %s)\n got:  %v\n want: %v", describe(c), got, want)
 	}
-	if len(want) != len(got) {
-		return rp.Failf(site+"/wrong-count", "GetDevices returned %d controllers, %d well-formed replies arrived (incoming: %s)\n got:  %v\n want: %v", len(got), len(want), describe(c), got, want)
+	if ordered {
+		j := 0
+		for _, w := range want {
+			opt := strings.HasPrefix(w, optionalMark)
+			if j < len(got) && got[j] == strings.TrimPrefix(w, optionalMark) {
+				j++
+			} else if !opt {
+				return mismatch()
+			}
+		}
+		if j != len(got) {
+			return mismatch()
+		}
+		return nil
 	}
-	for i := range want {
-		if want[i] != got[i] {
-			return rp.Failf(site+"/wrong-entry", "entry %d differs (incoming: %s)\n got:  %s\n want: %s", i, describe(c), got[i], want[i])
+	// unordered: every required entry is there, and what else is there is covered by the optional ones
+	left := map[string]int{}
+	for _, g := range got {
+		left[g]++
+	}
+	for _, w := range want {
+		if !strings.HasPrefix(w, optionalMark) {
+			if left[w] == 0 {
+				return mismatch()
+			}
+			left[w]--
+		}
+	}
+	for _, w := range want {
+		if strings.HasPrefix(w, optionalMark) && left[strings.TrimPrefix(w, optionalMark)] > 0 {
+			left[strings.TrimPrefix(w, optionalMark)]--
+		}
+	}
+	for _, n := range left {
+		if n != 0 {
+			return mismatch()
 		}
 	}
 	return nil
@@ -107,6 +171,8 @@ func describe(c discCase) string {
 			cl = append(cl, fmt.Sprintf("id%02x", d[0]))
 		case d[1] != 0x94:
 			cl = append(cl, fmt.Sprintf("code%02x", d[1]))
+		case dateOnlyFlaw(d):
+			cl = append(cl, "impossible-date")
 		default:
 			cl = append(cl, "bad-date")
 		}
@@ -313,6 +379,11 @@ func genCase(layer string) func(t *rapid.T) discCase {
 				} else {
 					d[off+nib/2] = d[off+nib/2]&0xf0 | v
 				}
+			case 5:
+				// valid BCD, no calendar date (month 13, 31 April, 29 February of a year that is not a leap year - century years
+				// included): the entry may be dropped or come without a date, it never carries an invented one
+				copy(d[l.Field("date").Off:], gen.FieldBytes(t, spec.Date, true, "impossible.date"))
+				serials = append(serials, serial)
 			default:
 				serials = append(serials, serial)
 			}
